@@ -6,7 +6,7 @@ From MT Require Import Constants Decode DecodeFacts DecodeStale DecodeExamples.
 Import ListNotations.
 Open Scope list_scope.
 
-(* For ALL worlds, ALL row lists (every row valid or of one of the twelve stale kinds, in any number and
+(* For ALL worlds, ALL row lists (every row valid or of one of the thirteen stale kinds, in any number and
    order) and both reporting modes: the outcome is the outcome of the decodable rows alone with the failure
    report put in front of its stderr; the report counts/lists exactly the rows that do not decode; `stub`
    exits 0 with the stub built from the decodable rows in order; if nothing decodes stdout is empty and the
@@ -82,12 +82,12 @@ Proof. exact DecodeExamples.ex_rows_ok. Qed.
 
 Example ex_run :
   run ex_subscript ex_build (fun s => AOk s) (ex_args false) exw ex_rows
-    = Exit ["stub of 3 trace(s)"%string] ["12 traces failed to decode; use -v for details"%string] 0
+    = Exit ["stub of 3 trace(s)"%string] ["13 traces failed to decode; use -v for details"%string] 0
   /\ (exists l, run ex_subscript ex_build (fun s => AOk s) (ex_args true) exw ex_rows
-                = Exit ["stub of 3 trace(s)"%string] l 0 /\ List.length l = 12
+                = Exit ["stub of 3 trace(s)"%string] l 0 /\ List.length l = 13
                   /\ nth 2 l ""%string = "WARNING: Failed decoding trace: Module 'fx' has no attribute 'K.gone'"%string)
   /\ run ex_subscript ex_build (fun s => AOk s) (ex_args false) exw (filter (fun r => negb (decodable ex_subscript exw r)) ex_rows)
-     = Exit [] ["12 traces failed to decode; use -v for details"%string; "No traces found for module fx"%string] 0.
+     = Exit [] ["13 traces failed to decode; use -v for details"%string; "No traces found for module fx"%string] 0.
 Proof. exact DecodeExamples.ex_run_ok. Qed.
 
 Example ex_unknown_param :
